@@ -194,8 +194,9 @@ def h_single(B, cls="EOF", layout="2d", codec="identity", rot=None, p=3, flags=N
 
 
 def h_cross(B, cls="CPCCA", codec="identity", alpha=0.5, use_pca=False, rot=None):
-    X = _with_attrs(da2d(B, "x", 4, 2, feat="x"))
-    Y = _with_attrs(da2d(B, "y", 4, 2, feat="y"))
+    cplx = cls.startswith("Complex")
+    X = _with_attrs(da2d(B, "x", 4, 2, cplx, feat="x"))
+    Y = _with_attrs(da2d(B, "y", 4, 2, cplx, feat="y"))
     model = M.cross(cls, n_modes=2, alpha=alpha, use_pca=use_pca, n_pca_modes="all").fit(X, Y, "time")
     if rot:
         model = M.rotate_cross(model, **rot)
@@ -213,8 +214,8 @@ def h_cross(B, cls="CPCCA", codec="identity", alpha=0.5, use_pca=False, rot=None
     for i in range(2):
         B.eq(f"components{i + 1} equal", m2.components()[i], model.components()[i])
         B.eq(f"scores{i + 1} equal", m2.scores()[i], model.scores()[i])
-    Xn = _with_attrs(da2d(B, "xn", 2, 2, feat="x", scoords=[100, 101]))
-    Yn = _with_attrs(da2d(B, "yn", 2, 2, feat="y", scoords=[100, 101]))
+    Xn = _with_attrs(da2d(B, "xn", 2, 2, cplx, feat="x", scoords=[100, 101]))
+    Yn = _with_attrs(da2d(B, "yn", 2, 2, cplx, feat="y", scoords=[100, 101]))
     t1, t2 = model.transform(Xn, Yn), m2.transform(Xn, Yn)
     B.eq("transform(X_new) equal", t2[0], t1[0])
     B.eq("transform(Y_new) equal", t2[1], t1[1])
@@ -257,6 +258,10 @@ def configs(tier):
     add("h_cross", "CPCCA|alpha=[0.0,1.0]|pca|netcdf-attrs", cls="CPCCA", alpha=[0.0, 1.0], use_pca=True, codec="netcdf-attrs")
     add("h_cross", "MCA|placeholders+netcdf-attrs", cls="MCA", codec="placeholders+netcdf-attrs")
     add("h_cross", "CPCCARotator|json", cls="CPCCA", codec="json", rot={"n_modes": 2, "power": 1})
+    # every rotator class with non-default constructor arguments (the complex / Hilbert CPCCA rotators only take **kwargs)
+    add("h_cross", "MCARotator|non-default rotator arguments|json", cls="MCA", codec="json", rot={"n_modes": 2, "power": 1, "max_iter": 500, "rtol": 1e-7})
+    add("h_cross", "ComplexCPCCARotator|non-default rotator arguments|json", cls="ComplexCPCCA", alpha=1.0, codec="json", rot={"n_modes": 2, "power": 1, "max_iter": 500, "rtol": 1e-7})
+    add("h_cross", "ComplexMCARotator|non-default rotator arguments|identity", cls="ComplexMCA", codec="identity", rot={"n_modes": 2, "power": 1, "max_iter": 500, "rtol": 1e-7})
     if tier == "thorough":
         add("h_cross", "CCA|json", cls="CCA", codec="json")
         add("h_cross", "RDA|netcdf-attrs", cls="RDA", codec="netcdf-attrs")
